@@ -24,7 +24,10 @@ MANIFEST = dict(
          "both proved as counterexamples and listed as known findings); out-of-range positions/rows are refused with the state unchanged; "
          "xmp_set_row lands on tick 0 of the row; next/prev move to the neighbouring order of the sequence (skip markers and pattern-less orders "
          "passed over, loops proved terminating), stay put at the list end / sequence end / foreign orders and restart the entry order; "
-         "xmp_seek_time selects the greatest candidate order; restart re-enters the first pattern of the sequence with loop count 0; stop ends. "
+         "xmp_seek_time selects the greatest candidate order; restart re-enters the first pattern of the sequence with loop count 0; stop ends; "
+         "a player (re)start inside a history (xmp_end_player + xmp_start_player, or xmp_start_player on the playing context, with another "
+         "sub-song selected) re-establishes sequence 0 and the relative / time calls that follow act in sequence 0 (C17_start_player, "
+         "C17_next_after_start, C17_seek_after_start). "
          "Model tied to the C on every run by a differential correspondence on the full sequencer state (return value, post-call state, state right "
          "after the reposition block, kernel fields and xmp_frame_info after the frame), a direct oracle on xmp_frame_info over corpus and "
          "generated modules, and the Lean witnesses replayed on the real library.",
@@ -42,10 +45,13 @@ REQUIRED = ["Xmp.Control." + n for n in (
     "C17_set_position_partial", "C17_set_position_ret0_counterexample", "C17_set_position_current_order_counterexample",
     "C17_refuse_position", "C17_refuse_row", "C17_set_row", "C17_next_inside", "C17_next_one_order", "C17_next_stays",
     "C17_prev_inside", "C17_prev_entry", "C17_prev_stays", "C17_marker_skipping_terminates", "C17_seek_time",
-    "C17_seek_time_fallback", "C17_restart", "C17_stop")] + [
+    "C17_seek_time_fallback", "C17_restart", "C17_stop", "C17_start_player", "C17_next_after_start",
+    "C17_seek_after_start")] + [
+    "Xmp.Control.startSkip_exit", "Xmp.Control.xmpStartPlayer_eq",
     "Xmp.Control.setPosition_isSome", "Xmp.Control.skipMarkers_isSome", "Xmp.Control.skipInvalid_exit",
     "Xmp.Control.nextOrderLoop_skip"]
 
+WSUB = "H 1 2 2 0 0 0 0 6 125\nO 0 1\nR 4 4\nE 0 3 0 0 0 11 0 0 0\nE 1 3 0 0 0 11 1 0 0\n"
 # Lean witnesses (XmpProps/C17.lean: wTwo / wMark) replayed on the real library: (module text, script, expected lines)
 WITNESSES = [
     ("wTwo", "H 1 2 2 0 0 0 0 6 125\nO 0 1\nR 64 64\n", "setpos 1\nplay 10\nop set_position 1\n",
@@ -61,10 +67,50 @@ WITNESSES = [
      {"ret": "0", "oracle": "ok prev:inside", "fi": "0 0 0 64 0 0 0"}),
     ("wMark", "H 1 2 5 0 1 0 0 6 125\nO 0 254 1 255 0\nR 64 64\n", "play 5\nop seek_time 8000\n",
      {"ret": "2", "oracle": "ok seek:landing", "fi": "2 1 0 64 0 0 0"}),
+    # player restarts inside the history, sub-song 1 selected before (wSub)
+    ("wSub", WSUB, "setpos 1\nplay 3\nop start_player 0\n",
+     {"seq": "0 0 0 1 1 1 0 1", "ret": "0", "oracle": "ok start:stopped", "fi": "0 0 0 4 0 0 0"}),
+    ("wSub", WSUB, "setpos 1\nplay 3\nop start_player 0\nop next_position 0\n",
+     {"ret": "0", "oracle": "ok next:end"}),
+    ("wSub", WSUB, "setpos 1\nplay 3\nop start_player 1\nplay 2\nop seek_time 0\n",
+     {"ret": "0", "oracle": "ok seek:landing", "fi": "0 0 0 4 0 0 0"}),
 ]
 
 
 STATE_FIELDS = 25
+
+
+def gen_subsongs(rng, path):
+    """A module with 2-4 sub-songs: consecutive blocks of orders, each block's last pattern jumps
+    back to the block's first order on its last row, so the scan finds one sequence per block."""
+    nsub = rng.randint(2, 4)
+    marker = rng.random() < 0.4
+    chn = rng.randint(1, 3)
+    orders, rows, ev = [], [], []
+    for b in range(nsub):
+        start = len(orders)
+        if marker and rng.random() < 0.3:
+            orders.append(0xfe)
+        n = rng.randint(1, 3)
+        for i in range(n):
+            pat = len(rows)
+            rows.append(rng.choice([2, 4, 8, 16]))
+            orders.append(pat)
+            if rng.random() < 0.3:
+                ev.append((pat, rng.randrange(rows[pat]), rng.randrange(chn), 0x0e, 0xe0 | rng.randint(1, 3)))
+            if marker and rng.random() < 0.2 and i + 1 < n:
+                orders.append(0xfe)
+        ev.append((len(rows) - 1, rows[-1] - 1, 0, 0x0b, start))
+        if marker and rng.random() < 0.4:
+            orders.append(0xff)
+    with open(path, "w") as f:
+        f.write("H %d %d %d 0 %d %d %d %d 125\n" % (chn, len(rows), len(orders), int(marker), int(rng.random() < 0.3),
+                                                  int(rng.random() < 0.4), rng.choice([1, 2, 3, 6])))
+        f.write("O " + " ".join(map(str, orders)) + "\n")
+        f.write("R " + " ".join(map(str, rows)) + "\n")
+        for (p, row, c, fxt, fxp) in ev:
+            f.write("E %d %d %d 0 0 %d %d 0 0\n" % (p, row, c, fxt, fxp))
+    return path
 
 
 def gen_synth(rng, path):
@@ -202,7 +248,7 @@ def run(ck):
     sdir = os.path.join(vlib.OUT, "c17-synth-%d" % ck.seed)
     os.makedirs(sdir, exist_ok=True)
     nsynth = 300 if quick else 4000
-    synth = [gen_synth(ck.rng, os.path.join(sdir, "s%04d.synth" % i)) for i in range(nsynth)]
+    synth = [(gen_subsongs if i % 3 == 0 else gen_synth)(ck.rng, os.path.join(sdir, "s%04d.synth" % i)) for i in range(nsynth)]
     corpus = [f for f in vlib.corpus_files() if os.path.getsize(f) < (600000 if quick else 30000000)]
     fixed = [f for f in corpus if "/test/test." in f]
     rest = [f for f in corpus if f not in fixed]
@@ -231,7 +277,7 @@ def replay_witnesses(ck, exe):
         got = {}
         for line in out.decode("latin-1").splitlines():
             w = line.split(" ", 1)
-            if w[0] in ("pre", "ret", "oracle") and len(w) > 1:
+            if w[0] in ("pre", "ret", "oracle", "seq") and len(w) > 1:
                 got[w[0]] = w[1]
             elif w[0] == "frame":
                 got["fi"] = w[1].split(" fi ")[1]
@@ -258,6 +304,13 @@ def evaluate(ck, exe, results):
         bump("modules_skipped", out.count("\nskip ") + (1 if out.startswith("skip ") else 0))
         if rc == 3 and out.rstrip().endswith("HANG load"):
             bump("load_timeouts")       # loading is not this property's subject (C02)
+            rc = 0
+        if rc == 4:     # xmp_start_player failed in the middle of a history
+            last = mods[-1] if mods else None
+            ck.violation("ret:xmp_start_player", {"module": last["file"] if last else None,
+                                                  "module_text": module_text(last["file"]) if last else None,
+                                                  "script": "\n".join(last["steps"]) + "\n" if last else None},
+                         "xmp_start_player failed when the player was restarted in %s" % (last["file"] if last else "?"))
             rc = 0
         if rc != 0:
             last = mods[-1] if mods else None
@@ -293,6 +346,7 @@ def evaluate(ck, exe, results):
                 bump("modules_multi_sequence")
             if int(mh[5]):
                 bump("modules_marker")
+            prev_op = None
             for c in md["cases"]:
                 if "frame" not in c:
                     continue
@@ -300,6 +354,11 @@ def evaluate(ck, exe, results):
                 pre = c["pre"].split(" ")
                 op = c["op"].split(" ")[0]
                 bump("op_" + op)
+                if op == "start_player" and pre[9] != "0":
+                    bump("player_starts_with_other_sequence_selected")
+                if prev_op == "start_player" and op in ("next_position", "prev_position", "seek_time"):
+                    bump("relative_or_time_call_right_after_player_start")
+                prev_op = op
                 pend = pre[1] != pre[2]
                 flowbits = []
                 if pre[11] != "0":
